@@ -63,3 +63,31 @@ Definition accumulate (pd : period) (prev : Z) (idx : nat -> Z) (T now : Z)
   | Some dur =>
       Some (Z.min (p_end pd) now, fun d => idx d + new_reward (p_rate pd d) T dur)
   end.
+
+(** * The bkava (liquid-staking) earn vaults: keeper/rewards_earn.go
+      accumulateEarnBkavaRewards, GetProportionalRewardsPerSecond,
+      accumulateBkavaEarnRewards, types.CalculatePerSecondRewards *)
+
+(* GetProportionalRewardsPerSecond for one reward denom, a Dec:
+   NewDecFromInt(rate).Mul(NewDecFromInt(v)).Quo(NewDecFromInt(V)); nothing when
+   the total derivative value V is zero.  v = value (in staked tokens) of the
+   whole supply of this vault's derivative denom, V = of all derivative denoms. *)
+Definition bk_rate (rate v V : Z) : Z :=
+  if V =? 0 then 0 else dec_quo (dec_mul (dec_of_int rate) (dec_of_int v)) (dec_of_int V).
+
+(* CalculatePerSecondRewards for one denom: rate.Mul(NewDec(whole seconds)) (DecCoins.MulDec),
+   nothing when the rounded duration is not positive *)
+Definition bk_persec (rate_dec dur : Z) : Z :=
+  let s := secs_of_ns dur in if s <=? 0 then 0 else dec_mul rate_dec (dec_of_int s).
+
+(* total rewards of the vault for this accumulation (Dec mantissa): the staking
+   rewards collected for the vault's validator (integer coins, no window) plus
+   the proportional per-second rewards *)
+Definition bk_rewards (rate_dec dur stk : Z) : Z := dec_of_int stk + bk_persec rate_dec dur.
+
+(* increment of the vault's global index: rewards.Quo(total shares); rewards are
+   dropped when the vault has no shares *)
+Definition bk_increment (rewards T : Z) : Z := if T <=? 0 then 0 else dec_quo rewards T.
+
+(* what the module counts as emitted by that accumulation (Dec mantissa) *)
+Definition bk_emitted (rewards T : Z) : Z := if T <=? 0 then 0 else rewards.
